@@ -110,6 +110,14 @@ def lookupTable (t : List (Nat × List Byte × List Byte)) (id : Nat) (d : List 
 def testHook (ret verb : Nat) : Script :=
   .safeString ([0x48, 0x4F, 0x4F, 0x4B, 0x5B] /- "HOOK[" -/ : List UInt8) (.unsafeLeaf ret (.safeRune (Int.ofNat verb) (.safeString ([0x5D] /- "]" -/ : List UInt8) .done)))
 
+/-- Result of an unclassified run: the raw text accumulated in the buffer. -/
+def plainStr (r : Res) : String :=
+  match r with
+  | .ok p => "ok " ++ toHex p.buf.buf
+  | .panic _ _ => "panic"
+  | .fuel => "fuel"
+  | .unsupported => "unsupported"
+
 def resStr (r : Res) (withErr : Bool) : String :=
   match r with
   | .ok p =>
@@ -134,6 +142,8 @@ def answerPrinter (toks : Toks) : String :=
           | "sprint" => resStr (sprint env args) false
           | "sprintf" => resStr (sprintf env f args) false
           | "errorf" => resStr (helperForErrorf env f args) true
+          | "plain" => plainStr (plainSprint env args)
+          | "plainf" => plainStr (plainSprintf env f args)
           | _ => "bad-case"
         | none => "bad-case"
       | _ => "bad-case"
